@@ -160,6 +160,11 @@ func (e *FactEngine) prescan() {
 		idx int
 	}
 	var cands []cand
+	type vcand struct {
+		obj types.Object
+		rhs ast.Expr
+	}
+	var vcands []vcand
 	ast.Inspect(e.fn.Decl.Body, func(n ast.Node) bool {
 		switch s := n.(type) {
 		case *ast.AssignStmt:
@@ -177,6 +182,22 @@ func (e *FactEngine) prescan() {
 				}
 				if o := info.ObjectOf(id); o != nil {
 					writes[o]++
+				}
+			}
+		case *ast.ValueSpec:
+			// var x T = e (the form the helper expansion binds parameters with)
+			if len(s.Names) == len(s.Values) {
+				for i, nm := range s.Names {
+					if o := info.Defs[nm]; o != nil && nm.Name != "_" {
+						defs[o]++
+						vcands = append(vcands, vcand{o, s.Values[i]})
+					}
+				}
+			} else {
+				for _, nm := range s.Names {
+					if o := info.Defs[nm]; o != nil {
+						defs[o]++
+					}
 				}
 			}
 		case *ast.IncDecStmt:
@@ -259,11 +280,45 @@ func (e *FactEngine) prescan() {
 					continue
 				}
 			}
-			if isPurePath(rhs) {
+			if isPurePath(rhs) || e.pureGetter(rhs) {
 				e.aliases[c.obj] = rhs
 			}
 		}
 	}
+	for _, c := range vcands {
+		if defs[c.obj] != 1 || writes[c.obj] != 0 {
+			continue
+		}
+		if b, ok := c.obj.Type().Underlying().(*types.Basic); ok && b.Kind() == types.Bool {
+			if _, isConst := ast.Unparen(c.rhs).(*ast.Ident); !isConst || info.Types[c.rhs].Value == nil {
+				e.boolDefs[c.obj] = c.rhs
+				continue
+			}
+		}
+		if isPurePath(c.rhs) || e.pureGetter(c.rhs) {
+			e.aliases[c.obj] = c.rhs
+		}
+	}
+}
+
+// pureGetter: a call of a repo function that only reads (quietFunc) over pure-path arguments,
+// e.g. MetaCtx(ctx); two such calls with the same arguments denote the same value as long as
+// the arguments' paths are not written (which kills the atoms that mention them).
+func (e *FactEngine) pureGetter(x ast.Expr) bool {
+	call, ok := ast.Unparen(x).(*ast.CallExpr)
+	if !ok || e.p == nil {
+		return false
+	}
+	fi := e.p.FuncOf(Callee(e.fn.Info(), call))
+	if fi == nil || fi.Decl.Recv != nil || !e.p.quietFunc(fi, 0) {
+		return false
+	}
+	for _, a := range call.Args {
+		if !isPurePath(a) {
+			return false
+		}
+	}
+	return true
 }
 
 func isPurePath(x ast.Expr) bool {
